@@ -6,8 +6,8 @@ Lemma name_byte_start_eq b : name_byte_is_start b = is_name_start b.
 Proof. reflexivity. Qed.
 Lemma name_byte_continue_eq b : name_byte_is_continue b = is_name_continue b.
 Proof.
-  unfold name_byte_is_continue, byte_is_ascii_alphanumeric, is_name_continue, is_name_start,
-    byte_is_ascii_alphabetic, byte_is_ascii_digit, is_alpha, is_digit.
+  unfold name_byte_is_continue, nm_byte_is_ascii_alphanumeric, is_name_continue, is_name_start,
+    nm_byte_is_ascii_alphabetic, nm_byte_is_ascii_digit, is_alpha, is_digit.
   destruct ((65 <=? b) && (b <=? 90) || (97 <=? b) && (b <=? 122)), ((48 <=? b) && (b <=? 57)), (b =? 95); reflexivity.
 Qed.
 
